@@ -450,6 +450,10 @@ func (vr *variableResolver) resolve(ctx *ExecutionContext) (*Value, error) {
 			if current.Kind() != reflect.Func {
 				return nil, fmt.Errorf("'%s' is not a function (it is %s)", vr.String(), current.Kind().String())
 			}
+			if current.IsNil() {
+				// A nil function is a nil value like any other
+				return AsValue(nil), nil
+			}
 
 			// Check for correct function syntax and types
 			// func(*Value, ...) *Value
@@ -550,6 +554,9 @@ func (vr *variableResolver) resolve(ctx *ExecutionContext) (*Value, error) {
 				current = reflect.ValueOf(rv.Interface())
 			} else {
 				// Return the function call value
+				if rv.IsNil() {
+					return AsValue(nil), nil
+				}
 				current = rv.Interface().(*Value).val
 				isSafe = rv.Interface().(*Value).safe
 			}
